@@ -22,7 +22,7 @@ pub fn run(a: &Args) -> Report {
     let n = es.len() as u64;
     let metas: Vec<MetaType> = es.iter().map(|e| (e.meta)()).collect();
     let dids: Vec<TypeId> = es.iter().map(|e| (e.did)()).collect();
-    let cfg = RunCfg { threads: a.u("threads", 16) as usize, cases: n, first_case: a.u("case", 0), max_secs: a.f("max-secs", 3600.0) };
+    let cfg = RunCfg { threads: a.u("threads", 16) as usize, cases: n, first_case: a.u("case", 0), max_secs: a.f("max-secs", 3600.0), progress: None };
     let cfg = if a.has("case") { RunCfg { cases: 1, threads: 1, ..cfg } } else { cfg };
     let mut total = Report::default();
     let body = run_parallel(&cfg, |i, rep| {
